@@ -23,7 +23,7 @@ RULE = (
 EXHAUSTIVE = {"quick": False, "thorough": True}
 ASSUMPTIONS = ["window table vmon/ref/misc.py:windows written from the statement", "2x2 block mean as the downsample reference"]
 ANCHORS = ["ginjax.data:time_series_idxs", "ginjax.data:times_series_to_multi_images", "ginjax.data:batch_time_series"]
-MIN_NONTRIVIAL = {"quick": 100, "thorough": 900}
+MIN_NONTRIVIAL = {"quick": 100, "thorough": 500}
 WORKERS = {"quick": 8, "thorough": 16}
 TIMEOUT = {"quick": 900, "thorough": 3600}
 TCODE = {(0, 0): 1, (0, 1): 2, (1, 0): 3, (1, 1): 4, (2, 0): 5}
@@ -55,7 +55,10 @@ def cases(tier, seed):
     if tier == "quick":
         idx = rng.choice(len(tuples), size=200, replace=False)
         tuples = [tuples[i] for i in sorted(idx)]
-    return [{"T": t[0], "p": t[1], "f": t[2], "dt": t[3], "s": t[4]} for t in tuples]
+    out = [{"T": t[0], "p": t[1], "f": t[2], "dt": t[3], "s": t[4], "layout": 0} for t in tuples]
+    if tier == "thorough":  # every tuple with a second, independently drawn signature/constant/downsample/batch layout
+        out += [{"T": t[0], "p": t[1], "f": t[2], "dt": t[3], "s": t[4], "layout": 1} for t in tuples]
+    return out
 
 
 def expected(dyn, const, D, T, p, f, s, dt, downsample):
@@ -202,7 +205,7 @@ def run(case, ctx):
         dyn_sig = [(t, c) for t, c in dyn_sig if t[0] <= 1] or [((0, 0), 1)]
     nb = int(rng.integers(1, 4))
     torus = tuple(bool(v) for v in rng.integers(0, 2, size=D))
-    key = {**{k: case[k] for k in ("T", "p", "f", "dt", "s")}, "D": D, "ds": ds, "dyn": dyn_sig, "const": const_sig, "nb": nb}
+    key = {**{k: case[k] for k in ("T", "p", "f", "dt", "s")}, "D": D, "ds": ds, "dyn": dyn_sig, "const": const_sig, "nb": nb, "layout": case.get("layout", 0)}
     viols, evals = [], 0
     _mon.take()
     try:
